@@ -274,6 +274,8 @@ func c19Sizes(c *Ctx, ge *GuardEngine) {
 		}
 	}
 	// maxLen evaluator
+	evalBound := map[types.Object]int64{}
+	var evalStack []*types.Func
 	var evalInt func(e ast.Expr) (int64, bool)
 	evalInt = func(e ast.Expr) (int64, bool) {
 		e = stripParens(e)
@@ -282,6 +284,9 @@ func c19Sizes(c *Ctx, ge *GuardEngine) {
 		}
 		switch x := e.(type) {
 		case *ast.Ident:
+			if v, ok := evalBound[pkg.TypesInfo.Uses[x]]; ok {
+				return v, true
+			}
 			if v, ok := sizeofs[pkg.TypesInfo.Uses[x]]; ok {
 				return v, true
 			}
@@ -309,6 +314,45 @@ func c19Sizes(c *Ctx, ge *GuardEngine) {
 			if len(x.Args) == 1 {
 				if tv, ok := pkg.TypesInfo.Types[x.Fun]; ok && tv.IsType() {
 					return evalInt(x.Args[0])
+				}
+			}
+			// a size helper of the package: a function whose body is one returned integer expression of its parameters
+			if fn, _ := typeutil.Callee(pkg.TypesInfo, x).(*types.Func); fn != nil && fn.Pkg() == pkg.Types && len(evalStack) < 4 {
+				if fd, _ := c.P.Decl(fn); fd != nil && fd.Body != nil && len(fd.Body.List) == 1 && fd.Recv == nil {
+					rs, isRet := fd.Body.List[0].(*ast.ReturnStmt)
+					var formals []types.Object
+					for _, f := range fd.Type.Params.List {
+						for _, n := range f.Names {
+							formals = append(formals, pkg.TypesInfo.Defs[n])
+						}
+					}
+					if isRet && len(rs.Results) == 1 && len(formals) == len(x.Args) {
+						vals := make([]int64, len(x.Args))
+						for i, a := range x.Args {
+							v, ok := evalInt(a)
+							if !ok {
+								return 0, false
+							}
+							vals[i] = v
+						}
+						saved := map[types.Object]int64{}
+						for i, f := range formals {
+							if old, had := evalBound[f]; had {
+								saved[f] = old
+							}
+							evalBound[f] = vals[i]
+						}
+						evalStack = append(evalStack, fn)
+						v, ok := evalInt(rs.Results[0])
+						evalStack = evalStack[:len(evalStack)-1]
+						for _, f := range formals {
+							delete(evalBound, f)
+						}
+						for f, old := range saved {
+							evalBound[f] = old
+						}
+						return v, ok
+					}
 				}
 			}
 		}
